@@ -1098,6 +1098,7 @@ static bool run_enumeration(std::string* why, uint64_t* count) {
 
 int main(int argc, char** argv) {
   A = vc::parse_args(argc, argv);
+  if (A.out.rfind("/dev/", 0) == 0) A.out.clear();  // Stats::write renames a temp file onto the path: never onto a device node
   if (A.prop.empty()) A.prop = "C18";
   if (A.prop != "C18") { fprintf(stderr, "engine S decides C18 only (got --prop %s)\n", A.prop.c_str()); return 2; }
   build_table();
